@@ -185,6 +185,50 @@ def ob_geos_bounds(p0: float, p1: float, p2: float, p3: float, p4: float, p5: fl
     return h.done(any=True)
 
 
+CAP_FINDING = "C11-geos-round-cap-shortfall"
+CAP_INPUT = [1.0, 100.0, 2.0, 300.0, 0.5, 20.0]  # LineString [[1,100],[2,300]], buffers 0.5 s / 20 Hz
+
+
+def ob_geos_cap(t0: float, f0: float, t1: float, f1: float, tb: float, fb: float) -> bool:
+    """
+    pre: 0 <= t0 <= 1000 and 0 <= t1 <= 1000 and 0 <= f0 <= 100000 and 0 <= f1 <= 100000
+    pre: 0 <= tb <= 1000 and 0 <= fb <= 100000
+    post: _
+    """
+    # replay target of the recorded finding: the LITERAL clause "bounds extend the original's by at least the
+    # requested buffers (clipped)" on real GEOS for a two-point line
+    g = data.LineString(coordinates=[[t0, f0], [t1, f1]])
+    r = ops.buffer_geometry(g, time_buffer=tb, freq_buffer=fb)
+    b = ops.compute_bounds(r)
+    lo_t, hi_t, lo_f, hi_f = min(t0, t1), max(t0, t1), min(f0, f1), max(f0, f1)
+    short = [max(0.0, b[0] - max(lo_t - tb, 0.0)) / tb if tb else 0.0,
+             max(0.0, (hi_t + tb) - b[2]) / tb if tb else 0.0,
+             max(0.0, b[1] - max(lo_f - fb, 0.0)) / fb if fb else 0.0,
+             max(0.0, min(hi_f + fb, MAXF) - b[3]) / fb if fb else 0.0]
+    worst = max(short)
+    if worst > 0:
+        # GEOS approximates a round cap by 8 segments per quadrant: an extreme lying between two vertices falls
+        # short of the radius by at most 1 - cos(pi/32) < 0.5 %; anything larger is another defect
+        if h.known(CAP_FINDING, worst <= 0.02):
+            return True
+        return h.fail("bounds extended by less than the requested buffer")
+    return h.done(any=True)
+
+
+def probe_geos_cap(params, timeout):
+    """Re-evaluates the recorded input of a known finding on the real code (real shapely/GEOS): no solver is
+    involved — the finding was seen while validating the bounds-level GEOS contract against the real library."""
+    if CAP_FINDING in params.get("exclude", ()):
+        return {"status": "confirmed", "queries": 0, "note": "recorded input excluded; nothing else is probed here"}
+    h.PARAMS.clear()
+    ok = ob_geos_cap(*CAP_INPUT)
+    if ok:
+        return {"status": "confirmed", "queries": 0, "note": "the recorded input no longer falls short"}
+    return {"status": "refuted", "replay_fn": "ob_geos_cap", "args": [CAP_INPUT, {}], "queries": 0,
+            "message": "LineString [[1,100],[2,300]] buffered by 0.5 s / 20 Hz: bounds extend by less than the buffers",
+            "clause": "bounds extended by less than the requested buffer"}
+
+
 ALL_TV = [("TimeStamp", 0), ("TimeInterval", 0), ("BoundingBox", 0), ("Point", 0), ("LineString", 0),
           ("Polygon", 0), ("MultiPoint", 0), ("MultiLineString", 0), ("MultiPolygon", 0)]
 
@@ -206,6 +250,7 @@ def plan():
         obs.append(Ob("geos-bounds-%s" % tag, ob_geos_bounds, "real", 1200, dict(tag=tag, variant=variant, abstract_geos=True),
                       q if tag in ("Point", "LineString", "Polygon") else ("thorough",), twins=("any",),
                       twin_timeout=300))
+    obs.append(Ob("geos-cap-recorded-input", probe_geos_cap, "kx", 60, dict(), q, kind="py"))
     return obs
 
 
